@@ -12,7 +12,7 @@ import (
 func init() {
 	register(&Spec{
 		ID:          "C03",
-		Loads:       []LoadSpec{{Patterns: []string{"./lnwallet", "./chanstate", "./lnwire", "./channeldb"}}},
+		Loads:       []LoadSpec{{Patterns: []string{"./lnwallet", "./chanstate", "./lnwire", "./channeldb", "./htlcswitch"}}},
 		Explanation: "Extracts the two decision tables of ProcessChanSyncMsg over every order region of the compared heights (TABLE) and compares them with the BOLT-2 retransmission rules; checks that a data-loss verdict needs the recovery options and a verified commit secret, that the retransmitted revocation is for height tail-1 and built by the one revocation generator, that the commitment is retransmitted from the durable commit diff (all log updates, then the signature, re-signed for taproot), that the relative order of revocation and commitment follows the stored LastWasRevoke flag, and that the sender's channel_reestablish fields are the ones the receiver compares.",
 		NotDecided: []string{
 			"that retransmitted signatures verify on the peer", "repeated disconnects during resynchronisation",
@@ -480,4 +480,6 @@ func runC03(r *an.Run) {
 	windowDiscipline(r)
 	modifiedMarkerDiscipline(r)
 	persistRestoreKindAgreement(r)
+
+	linkResyncRoles(r)
 }
